@@ -211,18 +211,13 @@ def eval_case(case):
 
 def run(ctx):
     stated = list(make_cases_stated())
-    if ctx.quick:
-        ctx.rng.shuffle(stated)
-        part = stated[:1400]
-        ctx.exhaustive = False
-    else:
-        part = stated
-        ctx.exhaustive = True
+    part = stated           # the whole stated domain in both tiers (9 216 servers take seconds)
+    ctx.exhaustive = True
     ctx.map(part)
     faults = list(make_cases_faults())
     if ctx.quick:
         ctx.rng.shuffle(faults)
-        faults = faults[:300]
+        faults = faults[:800]
     ctx.map(faults)
     ext = list(make_cases_extension())
     if ctx.quick:
